@@ -161,17 +161,10 @@ interface_prog = re.compile(
     r'zope\.schema\.interfaces\.([a-zA-Z_][a-zA-Z0-9_]*)'
     r'|zope\.interface\.Interface')
 
-def _findObject(system: model.System, name: str) -> Optional[model.Documentable]:
-    """Look up an expanded name; the object may have been moved by a re-export already."""
-    try:
-        return system.find_object(name)
-    except LookupError:
-        return None
-
 def namesInterface(system: model.System, name: str) -> bool:
     if interface_prog.match(name):
         return True
-    obj = _findObject(system, name)
+    obj = system.objForFullName(name)
     if not isinstance(obj, ZopeInterfaceClass):
         return False
     return obj.isinterface
@@ -188,7 +181,7 @@ class ZopeInterfaceModuleVisitor(extensions.ModuleVisitorExt):
         funcName = astbuilder.node2fullname(expr.func, self.visitor.builder.current)
         if funcName is None:
             return
-        ob = _findObject(self.visitor.system, funcName)
+        ob = self.visitor.system.objForFullName(funcName)
         if isinstance(ob, ZopeInterfaceClass) and ob.isinterfaceclass:
             # TODO: Process 'rawbases' and '__doc__' arguments.
             # TODO: Currently, this implementation will create a duplicate class 
@@ -230,7 +223,7 @@ class ZopeInterfaceModuleVisitor(extensions.ModuleVisitorExt):
                 attr.kind = model.DocumentableKind.SCHEMA_FIELD
 
             else:
-                cls = _findObject(self.visitor.builder.system, funcName)
+                cls = self.visitor.builder.system.objForFullName(funcName)
                 if not (isinstance(cls, ZopeInterfaceClass) and cls.isschemafield):
                     return
                 attr.kind = model.DocumentableKind.SCHEMA_FIELD
